@@ -141,11 +141,12 @@ def main(argv=None):
     import z3
     cov = dict(
         states=S('paths') + extra.get('states', 0), transitions=S('decisions') + extra.get('transitions', 0),
+        transitions_rule='decisions on symbolic truth values plus realisations of symbolic integers taken along the explored paths',
         traces_validated_against_impl=S('witness_ok') + extra.get('traces_validated', 0),
         samples=samples,
         obligations=S('obligations') + extra.get('obligations', 0), discharged=S('discharged') + extra.get('discharged', 0),
         sat=S('sat') + extra.get('sat', 0), unknown=S('unknown') + extra.get('unknown', 0),
-        exhaustive=(not incomplete) and not a.only and not extra.get('incomplete'),
+        exhaustive=(not incomplete) and not a.only and not extra.get('incomplete') and not (S('unknown') + extra.get('unknown', 0)),
         exhaustive_scope='every feasible path of every listed job inside the stated bounds' if not incomplete else 'NOT exhaustive: see incomplete_jobs',
         jobs=len(results), incomplete_jobs=incomplete[:40], feasibility_queries=S('queries'), forks=S('forks'),
         solver_seconds=round(S('solver_s') + S('final_s') + extra.get('solver_seconds', 0), 2), solver='z3 ' + z3.get_version_string(),
